@@ -152,6 +152,14 @@ func corpus() []scenario {
 		{rings: [][]initKey{nil}, missing: []bool{true}, threads: []threadSpec{{0, []opSpec{o, a(10), {kind: 'C', seq: 1}}}, {0, []opSpec{o}}, {0, []opSpec{{kind: 'R'}}}}},
 		// the same race on the directory back end (flock)
 		{dir: true, rings: [][]initKey{nil}, missing: []bool{true}, threads: []threadSpec{{0, []opSpec{o, a(10)}}, {0, []opSpec{o, a(11)}}}},
+		// a rotation overtaken by another one: handle 0 adds key 2; handle 1 (fresh view) performs a whole rotation
+		// (adds key 3, makes it current); handle 0's SetCurrent(2), prepared from "current is 1", must fail in every
+		// schedule in which it commits after handle 1's – the current marker never falls back to the older key
+		{rings: [][]initKey{{{1, true}}}, threads: []threadSpec{{0, []opSpec{a(10), {kind: 'C', seq: 2}}}, {0, []opSpec{o, a(11), {kind: 'C', seq: 3}}}}},
+		// the same without a current key at the start, on the directory back end
+		{dir: true, rings: [][]initKey{{{1, false}}}, threads: []threadSpec{{0, []opSpec{a(10), {kind: 'C', seq: 2}}}, {0, []opSpec{o, a(11), {kind: 'C', seq: 3}}}}},
+		// three writers rotating the same ring
+		{rings: [][]initKey{{{2, true}}}, threads: []threadSpec{{0, []opSpec{a(10), {kind: 'C', seq: 2}}}, {0, []opSpec{o, a(11), {kind: 'C', seq: 3}}}, {0, []opSpec{o, {kind: 'C', seq: 1}}}}},
 		// re-opening an existing ring writes nothing
 		{rings: [][]initKey{{{1, true}}}, threads: []threadSpec{{0, []opSpec{o, a(10)}}, {0, []opSpec{a(11), o}}}},
 	}
